@@ -34,6 +34,7 @@ type chr struct {
 func (c *chr) id() string { return fmt.Sprintf("%d.%d", c.AID, c.IID) }
 
 type fixture struct {
+	fence string // target of the fence request: a readable characteristic of accessory 1
 	a     *app.App
 	dir   string
 	chars []*chr
@@ -171,6 +172,18 @@ func startFixture(base string, pin string, kinds []string, nExtra int, stored []
 		f.stop()
 		return nil, fmt.Errorf("attribute database: %v (%d accessories)", err, len(db.Accessories))
 	}
+	// the fence reads the first readable characteristic of accessory 1 (the accessory information service)
+	for _, sv := range db.Accessories[0].Services {
+		for k := range sv.Characteristics {
+			if f.fence == "" && db.Accessories[0].AID == 1 && sv.Characteristics[k].Has("pr") {
+				f.fence = fmt.Sprintf("/characteristics?id=1.%d", sv.Characteristics[k].IID)
+			}
+		}
+	}
+	if f.fence == "" {
+		f.stop()
+		return nil, fmt.Errorf("no readable characteristic in accessory 1 for the fence request")
+	}
 	for i, p := range protos {
 		aid := uint64(i + 1)
 		f.accs = append(f.accs, p.name)
@@ -278,5 +291,3 @@ func trunc(s string, n int) string {
 	}
 	return s
 }
-
-const fenceTarget = "/characteristics?id=1.2"
